@@ -97,6 +97,10 @@ type c17World struct {
 	toomany  []int
 	pings    int
 	sentResp int
+	waiters  map[int]bool // tickets of the SendChunk calls blocked on the gate
+	ticket   int
+	allowed  int // ticket let through by flush (-1: none)
+	passed   int // SendChunk calls completed
 	items    []c17Item
 	s        *basestreamseeder.BaseSeeder
 	limit    int64
@@ -126,9 +130,19 @@ func (w *c17World) submit(peer string, sid uint32, start, stop uint64, num uint3
 		ID: peer,
 		SendChunk: func(r basestream.Response) error {
 			w.mu.Lock()
-			for w.held {
-				w.cond.Wait()
+			if w.held {
+				t := w.ticket
+				w.ticket++
+				w.waiters[t] = true
+				for w.held && w.allowed != t {
+					w.cond.Wait()
+				}
+				delete(w.waiters, t)
+				if w.allowed == t {
+					w.allowed = -1
+				}
 			}
+			w.passed++
 			if sentinel {
 				w.sentResp++
 			} else {
@@ -187,7 +201,7 @@ func c17Run(input []string) []string {
 	threads := int(atoi(header[0]))
 	limit := int64(atoi(header[1]))
 	nitems := int(atoi(header[5]))
-	w := &c17World{incs: map[int][]c17Resp{}, limit: limit}
+	w := &c17World{incs: map[int][]c17Resp{}, limit: limit, waiters: map[int]bool{}, allowed: -1}
 	w.cond = sync.NewCond(&w.mu)
 	for i := 0; i < nitems; i++ {
 		w.items = append(w.items, c17Item{atoi(header[6+3*i]), atoi(header[7+3*i]), int(atoi(header[8+3*i]))})
@@ -260,11 +274,37 @@ func c17Run(input []string) []string {
 	quiesce := func() {
 		c17Spin("quiesce", func() bool { return w.pingsSeen() == expectedPings && pending() == 0 })
 	}
+	// flush releases the blocked SendChunk calls one at a time, the most recent arrival first (so
+	// that a response routed to another sender worker than its predecessors overtakes them; with
+	// one FIFO per session the per-incarnation logs do not depend on the release order).
 	flush := func() {
-		w.mu.Lock()
-		w.held = false
-		w.cond.Broadcast()
-		w.mu.Unlock()
+		for {
+			for i := 0; i < 60; i++ { // let the workers reach the gate
+				runtime.Gosched()
+			}
+			w.mu.Lock()
+			if len(w.waiters) == 0 {
+				w.held = false
+				w.cond.Broadcast()
+				w.mu.Unlock()
+				break
+			}
+			max := -1
+			for t := range w.waiters {
+				if t > max {
+					max = t
+				}
+			}
+			w.allowed = max
+			before := w.passed
+			w.cond.Broadcast()
+			w.mu.Unlock()
+			c17Spin("release", func() bool {
+				w.mu.Lock()
+				defer w.mu.Unlock()
+				return w.passed > before
+			})
+		}
 		quiesce()
 	}
 	// sentinel session
@@ -467,6 +507,32 @@ func c17Gen(r *rand.Rand, n int, tier string, emit func(...string)) {
 	emit(strings.Fields("2 1000 100 1000 4 6 0 1 1 1 1 1 2 1 1 3 1 1 4 1 1 5 1 1 ; r 1 1 0 9 1 100 0 ; r 1 1 0 9 1 100 1 ; r 1 2 0 9 1 100 1 ; r 1 3 0 9 1 100 1 ; r 1 1 0 9 1 100 1")...)
 	for i := 0; i < n; i++ {
 		c17GenOne(r, emit)
+	}
+	if tier == "thorough" {
+		// exhaustive small scope around the session table: one peer, session ids 1..4, requests
+		// for 0 or 1 chunk (limit 2 items), every history of length <= 5
+		header := strings.Fields("2 1000 100 1000 4 6 0 1 1 1 1 1 2 1 1 3 1 1 4 1 1 5 1 1")
+		var syms [][]string
+		for sid := 1; sid <= 4; sid++ {
+			for _, ch := range []string{"0", "1"} {
+				syms = append(syms, []string{"r", "1", strconv.Itoa(sid), "0", "9", "2", "100", ch})
+			}
+		}
+		syms = append(syms, []string{"u", "1"})
+		var rec func(prefix []string, depth int)
+		rec = func(prefix []string, depth int) {
+			if depth > 0 {
+				emit(prefix...)
+			}
+			if depth == 5 {
+				return
+			}
+			for _, sy := range syms {
+				next := append(append(append([]string{}, prefix...), ";"), sy...)
+				rec(next, depth+1)
+			}
+		}
+		rec(header, 0)
 	}
 }
 
